@@ -5,6 +5,7 @@ import HdwModel.Model.Path
 import HdwModel.Model.Signature
 import HdwModel.Model.Rlp
 import HdwModel.Model.CliHex
+import HdwModel.Model.Mnemonic
 import HdwModel.Driver.Judge
 
 namespace Hdw.Driver
@@ -36,6 +37,34 @@ def runOp (parts : List String) : Resp :=
   | ["msg.hash_rep", n, f] =>
     match n.toNat?, f.toNat? with
     | some n, some f => .ok [hx (Message.digest P (List.replicate n (UInt8.ofNat f)))]
+    | _, _ => .harness "bad arg"
+  | ["mn.parse", a] =>
+    match utf8Arg a with
+    | some s =>
+      let r : Res (Str × Nat) := do
+        let m ← Mnemonic.fromPhrase P s
+        let ph ← Mnemonic.toPhrase m
+        pure (ph, Mnemonic.mnemonicLength m)
+      ofRes r fun (ph, n) => [hxStr ph, toString n, hxStr ph]
+    | none => .harness "bad arg"
+  | ["mn.random", n, ent] =>
+    match n.toNat?, (if ent == "fail" then some none else (unhex ent).map some) with
+    | some n, some inject =>
+      -- the oracle hands out the first `k` injected bytes (failure if fewer are available) and
+      -- logs the request, exactly like the harness's `getentropy`
+      let oracle : Nat → Option Bytes := fun k =>
+        match inject with
+        | some b => if b.length ≥ k then some (b.take k) else none
+        | none => none
+      let requested : Option Nat := (Mnemonic.mnemonicToByteLength n).toOption
+      let r : Res (Str × Nat) := do
+        let m ← Mnemonic.random P oracle n
+        let ph ← Mnemonic.toPhrase m
+        pure (ph, Mnemonic.mnemonicLength m)
+      match r with
+      | .ok (ph, k) => .ok [hxStr ph, toString k, toString (requested.getD 0)]
+      | .err _ => .err
+      | .panic _ => .panic
     | _, _ => .harness "bad arg"
   | ["path.parse", a] =>
     match utf8Arg a with
@@ -105,6 +134,13 @@ def judgeOp (parts : List String) (resp : String) : Verdict :=
   | ["msg.hash_rep", n, f] => match n.toNat?, f.toNat? with
     | some n, some f => judgeMsgHash (List.replicate n (UInt8.ofNat f)) resp
     | _, _ => .skip
+  | ["mn.parse", a] => match utf8Arg a with
+    | some s => judgeMnParse s resp
+    | none => .skip
+  | ["mn.random", n, ent] =>
+    match n.toNat?, (if ent == "fail" then some none else (unhex ent).map some) with
+    | some n, some inject => judgeMnRandom n inject resp
+    | _, _ => .skip
   | ["path.parse", a] => match utf8Arg a with
     | some s => judgePathParse (String.ofList s) resp
     | none => .skip
@@ -125,6 +161,27 @@ def judgeOp (parts : List String) (resp : String) : Verdict :=
     | none => .skip
   | ["rlp.bytes", b] => match unhex b with
     | some b => judgeRlpItem (.str b) (isStr b) resp
+    | none => .skip
+  | ["rlp.len", n, off] => match n.toNat?, off.toNat? with
+    | some n, some off =>
+      if (off == 128 || off == 192) && n < 2 ^ 64 then
+        expect (resp == "ok " ++ hx (Spec.Rlp.header n off)) "length header differs from the Yellow-Paper header"
+      else .skip
+    | _, _ => .skip
+  | ["rlp.bytes_rep", n, f] => match n.toNat?, f.toNat? with
+    | some n, some f =>
+      let hdr : Bytes := if n == 1 && f < 128 then [] else Spec.Rlp.header n 128
+      expect (resp == s!"ok {hx hdr} {n} true") "header of a long string differs from the Yellow-Paper header, or payload damaged"
+    | _, _ => .skip
+  | ["rlp.list", items] =>
+    let parts := if items == "-" then some [] else (items.splitOn ",").mapM unhex
+    match parts with
+    | some is =>
+      -- only meaningful when the inputs are themselves canonical items
+      match is.mapM Spec.Rlp.decodeAll with
+      | some its =>
+        judgeRlpItem (.list its) (fun it => Spec.Rlp.encode it == Spec.Rlp.encode (.list its)) resp
+      | none => .skip
     | none => .skip
   | ["rlp.uint", v] => match unhex v with
     | some b =>
